@@ -244,7 +244,10 @@ pub fn pool_wrap() {
     let id_wrap = !big_ids && tape::chance(site::GEOM, 1, 2);
     if id_wrap {
         let mut refused = 0u32;
-        for _ in 0..65_540u32 {
+        for n in 0..65_540u32 {
+            if n % 1024 == 0 {
+                crate::orch::beat();
+            }
             match alloc::a10(|| a10::io::ReadBufPool::new(w.sq.clone(), 1, 8)) {
                 Ok(p) => alloc::a10(|| drop(p)),
                 Err(e) if e.raw_os_error() == Some(libc::EEXIST) => refused += 1,
@@ -272,6 +275,9 @@ pub fn pool_wrap() {
     let mut held: Vec<a10::io::ReadBuf> = Vec::new();
     let wk = std::task::Waker::noop();
     for i in 0..total {
+        if i % 1024 == 0 {
+            crate::orch::beat();
+        }
         let made = ops::make(&mut w, Kind::ReadPool, Some(fd), Some(0), i as u8);
         let mut t: Box<dyn DynTask> = made.task;
         let mut cx = Context::from_waker(wk);
